@@ -59,6 +59,7 @@ KF = {
     "waitjob": "KF-C01-wait-after-failed-job",
     "casenest": "KF-C01-case-backtracking",
     "heredoc": "KF-C01-heredoc-empty-tag",
+    "bracenest": "KF-C01-brace-backtracking",
 }
 
 # ------------------------------------------------------------------ running the harness (resumable)
@@ -618,6 +619,8 @@ def known_hang(script):
         return KF["casenest"]
     if re.search(r"""<<-?[ \t]*(''|"")""", script):
         return KF["heredoc"]
+    if any(w.count("{") - w.count("}") >= 8 for w in script.split()):
+        return KF["bracenest"]
     return None
 
 
